@@ -29,31 +29,44 @@ import json
 STREAMS = ['corpus-and-exemplars', 'interleavings-exhaustive', 'foreign-messages', 'bodies-reencode',
            'histories-random']
 THEOREMS = ['unique_names_fresh', 'unique_names_never_reused', 'unicast_exact', 'owner_unique',
-            'sender_is_true', 'order_preserved', 'bus_calls_answered_not_forwarded',
-            'broadcast_exact', 'rules_held_by_connected_clients',
+            'sender_is_true', 'remarshal_keeps', 'unchanged_except_sender', 'remarshal_drops_extra_fields',
+            'order_preserved', 'bus_calls_answered_not_forwarded', 'disconnect_completes',
+            'broadcast_exact', 'rules_held_by_connected_clients', 'sender_constraint_is_ignored',
+            'simple_rule_keys_are_the_routers',
             'original_unicast_reaches_rule_holder', 'original_rule_outlives_its_client']
 TRUSTED_BASE = [
-    'message parsing and re-serialisation are outside the model: a message is its observable fields plus an '
-    'opaque body token (digest of byte order + body bytes for client messages, of the decoded values for messages the bus builds); that the bytes the bus writes decode to the '
-    'same fields and body is checked by the harness on every delivery (streams bodies-reencode, histories-random)',
+    'a message is its observable header (type, serial, whole flags byte, the nine known header fields, a token for fields '
+    'with unknown codes) plus an opaque body token (byte order + signature + digest of the body bytes); the model\'s '
+    '`remarshal` mirrors parseMessage + _marshal(False, rawBody=...) against the per-class header tables generated from '
+    'message.py; that the bytes the bus writes decode to what `remarshal` says is checked on every delivery (S3), that '
+    'they equal what was sent except for the sender is the oracle (S4: field by field as a mapping code -> (type, value), '
+    'body bytes, byte order)',
     'match-rule evaluation is a parameter of the model (C12 owns router.Rule.match); the driver instantiates it with '
-    'equality on interface/member/path/destination, the only keys the harness puts into rules (plus type=signal)',
+    'equality on type/interface/member/path/destination (theorem simple_rule_keys_are_the_routers ties the key set to '
+    'the tuple in router.py) and, like router.py, ignores a sender= constraint (known finding)',
     'the name table is a parameter of the model (C13 owns RequestName/ReleaseName): owner changes and the signals '
     'those functions emit are observed on the real bus and replayed into the model as effects',
-    'object dispatch (C10 owns handleMethodCallMessage): the harness classifies each call to the bus as '
-    '"always answered" / "executed" from path, interface, member and signature',
+    'object dispatch (C10 owns handleMethodCallMessage) is observed, not predicted: executeMethod called / '
+    'router.addMatch called (with which constraints) / neither (answered by _send_err or a built-in reply)',
     'Twisted: a transport told to loseConnection is followed by connectionLost (the harness does that after the read); '
     'an exception escaping dataReceived is a lost connection',
 ]
 ASSUMPTIONS = [
-    'clients send well-formed messages (parse failures are C05); one message is processed to completion before the next '
-    '(the bus is single-threaded and its dbus_* methods are synchronous)',
-    '"unchanged" is at the level of decoded values: the bus re-encodes bodies, a variant may change its wire type',
+    'clients send well-formed messages (parse failures are C05; protocol version 1); one message is processed to '
+    'completion before the next (the bus is single-threaded and its dbus_* methods are synchronous)',
+    '"unchanged except the sender" is judged on the wire: since 84eeaa3 the body bytes and byte order are forwarded '
+    'verbatim; header fields are compared as a mapping code -> (variant type, value), their order is not content',
+    'the generator also writes \'\' into destination / sender (not a bus name): such messages are fed to model and bus '
+    '(correspondence) but never judged, and an exception on them is a lost connection, not a finding',
     'a client holding two matching rules receives a broadcast once per rule; the statement does not count copies',
     'methods of the bus interface that txdbus does not implement (RemoveMatch, GetId fails to encode) are answered '
     'with an error reply, which counts as answered',
+    'legitimate changes that the ORACLE accepts but the MODEL does not follow yet (they show as correspondence drift, '
+    'i.e. "no-failing-input-found", and need a model update, not a repair): naming on connect, an error reply to the '
+    'sender for an unknown destination, honouring NO_REPLY_EXPECTED in _send_err, validating bus names in parseMessage; '
+    'the bus stamping org.freedesktop.DBus as sender of its own messages is accepted by both',
 ]
-RULE = ('a case is one history (list of operations of up to 6 connections, at most 4 alive) together with all '
+RULE = ('a case is one history (list of operations of up to 13 connections, at most 4 alive) together with all '
         'per-event deliveries; distinct = distinct canonical JSON of the operation list; non-trivial = at least '
         'one message was delivered to some client other than a bus reply to its sender')
 
@@ -171,6 +184,7 @@ class Net:
         self.steps = []
         self.cur = None
         self.aborted = None
+        self.unprocessed = None
         real_send, real_bcast = self.bus.sendSignal, self.bus.broadcastSignal
 
         def sendSignal(p, member, signature=None, body=None, *a, **kw):
@@ -300,10 +314,17 @@ class Net:
         c = self.clients[i]
         if not c['alive'] or self.aborted:
             return
+        n0 = len(self.steps)
         try:
             c['p'].dataReceived(b''.join(raws))
         except Exception as e:
             self.aborted = '%s: %s' % (type(e).__name__, str(e)[:200])
+            return
+        got = len(self.steps) - n0
+        if got != len(raws):
+            # complete messages were read and the bus did not process them (or processed something else)
+            self.unprocessed = {'connection': i, 'messages_in_read': len(raws), 'processed': got}
+            self.aborted = 'unprocessed'
             return
         if c['t'].disconnecting:
             self.disconnect(i)
@@ -781,20 +802,24 @@ def oracle(net):
                 add('bus-raises-on-message', 'the bus raised %s while handling a well-formed event' % st.exc, st.exc,
                     'event handled')
             break
-        # ---- names
-        if st.kind == 'msg':
-            cur = net_name_after(net, st)
-            if names[i] is None:
-                names[i] = cur
-                if cur is None:
+        # ---- names: whenever the bus gives a connection its name (txdbus: on its first message; on connect would be
+        # just as good), the name must be fresh and must stay
+        for j in range(len(st.names_before)):
+            cur = st.names_before[j]
+            if j == i and st.kind == 'msg':
+                cur = net_name_after(net, st)
+            if names[j] is None:
+                if cur is not None:
+                    names[j] = cur
+                    if cur in ever:
+                        add('unique-name-reused', 'unique name %s given to connection %d was given to connection %d '
+                            'before' % (cur, j, ever[cur]), cur, 'a fresh name')
+                    else:
+                        ever[cur] = j
+                elif j == i and st.kind == 'msg':
                     add('no-unique-name', 'connection %d sent a message and has no unique name' % i)
-                elif cur in ever:
-                    add('unique-name-reused', 'unique name %s given to connection %d was given to connection %d '
-                        'before' % (cur, i, ever[cur]), cur, 'a fresh name')
-                else:
-                    ever[cur] = i
-            elif cur != names[i]:
-                add('unique-name-changed', 'connection %d was %s and now is %s' % (i, names[i], cur))
+            elif cur != names[j]:
+                add('unique-name-changed', 'connection %d was %s and now is %s' % (j, names[j], cur))
         fw = [(j, d) for j, d in st.deliv if not from_bus(d)]
         bo = [(j, d) for j, d in st.deliv if from_bus(d)]
         # ---- nobody who is gone receives anything
@@ -922,6 +947,10 @@ def oracle(net):
             if exp - got:
                 add('broadcast-missed-rule-holder', 'a broadcast did not reach connection(s) %s holding a matching rule'
                     % sorted(exp - got), sorted(got), sorted(exp))
+    if net.unprocessed:
+        add('message-not-processed', 'connection %(connection)d wrote %(messages_in_read)d complete message(s) in one '
+            'read; the bus processed %(processed)d' % net.unprocessed, net.unprocessed['processed'],
+            net.unprocessed['messages_in_read'])
     # ---- order per (sender, destination)
     for j in range(nclients):
         per = {}
